@@ -28,7 +28,7 @@ HasSelf(args) == \E i \in DOMAIN args : args[i].k \in {"cself", "mself"}
 (* C10: an unresolvable return type is dropped (and_then) instead of       *)
 (* failing.  With the repair applied (fix: commit) the constant is FALSE   *)
 (* and the mirror fails like the code does.                                *)
-DROPRET == TRUE
+DROPRET == FALSE
 
 BuildFunction(reg, scope, isV, f) ==
   LET rargs == [i \in DOMAIN f.args |->
